@@ -114,13 +114,13 @@ CONFIG = {
                 "perft of the rules spec (sum over k = 1..depth+1 of the number of legal move sequences of length k)",
     },
     "C14": {
-        "sort_tags": ("glabels",), "ignore_ops": ("pos", "game", "gtoggle", "gunplay"), "spec_tags": ("gcoord", "galg", "glabels", "gsnap", "cliin", "gbsnap", "pvp"), "sample_tags": ("gcoord", "galg", "cliin", "pvp"),
+        "sort_tags": ("glabels",), "ignore_ops": ("pos", "game", "gtoggle", "gunplay"), "spec_tags": ("gcoord", "galg", "glabels", "gsnap", "cliin", "gbsnap", "pvp", "play"), "sample_tags": ("gcoord", "galg", "cliin", "pvp", "play"),
         "rule": "games played through the Game API: at every node several rejected inputs (mutated labels, labels of the previous position, illegal coordinate pairs; periodically all 4096 pairs) "
                 "must leave the game snapshot (board, clocks, key, history) unchanged, and one accepted input (by label or by coordinates) must play exactly the named move and append it to the history; "
                 "every answer is compared with the model's apply_by_coords / apply_by_notation",
     },
     "C15": {
-        "ignore_ops": ("pos", "game", "gnew", "gtoggle", "gsync"), "spec_tags": ("book", "gselect", "gengine", "gcoord", "watch"), "sample_tags": ("book", "gselect", "gengine", "watch"),
+        "ignore_ops": ("pos", "game", "gnew", "gtoggle", "gsync"), "spec_tags": ("book", "gselect", "gengine", "gcoord", "watch", "play"), "sample_tags": ("book", "gselect", "gengine", "watch", "play"),
         "rule": "every node of the compiled opening-book trie (all prefixes of all lines) is compared with the continuations of the translated book source; the engine is asked for its move at every node "
                 "of every line, past the end of lines, and in supplied starting positions: the answer must be a legal move of the rules whenever one exists",
     },
@@ -262,6 +262,9 @@ def scenarios(pid, tier, seed):
             {"args": ["scen", "family=games", "len=%d" % (10 if q else 60), "allpairs=%d" % (60 if q else 5), "walkpos=%d" % (4 if q else 120), S], "shards": 16},
             # a placement met again with the OTHER side to move inside one Game (triangulation), first position's labels typed again
             {"args": ["scen", "family=games", "len=7", "tempo=1", "names=bare-kings,pawn-ending,endgame-rp,castle-gives-check,single-reply,rooks-same-file,knights-no-shared", "walkpos=%d" % (8 if q else 200), "maxpieces=8", S], "shards": 16},
+            # the real `chess play` loop (human v computer) in a child process: the human's typed lines accepted iff legal,
+            # the engine's moves legal
+            {"args": ["scen", "family=play", "games=%d" % (6 if q else 96), S], "shards": 6},
             # the real `chess pvp` loop in a child process: miniature games typed as coordinates / printed notation with
             # rejected inputs in between; every board it prints and its final verdict are compared with the model
             {"args": ["scen", "family=pvp", "count=%d" % (12 if q else 240), S], "shards": 6},
@@ -269,6 +272,8 @@ def scenarios(pid, tier, seed):
     if pid == "C15":
         return [
             {"args": ["scen", "family=engine", "sdepth=1", "reps=%d" % (1 if q else 4), "walkpos=%d" % (16 if q else 300), S], "shards": 16},
+            # the real `chess play` loop: the engine's replies to a typing human
+            {"args": ["scen", "family=play", "games=%d" % (4 if q else 64), S], "shards": 4},
             # the real `chess watch` loop (game::computer_vs_computer), stdout captured: every move it prints must be a
             # legal move's notation, it must end exactly when the model's game_ending / the move limit says so, never with an error
             {"args": ["scen", "family=watch", "games=%d" % (6 if q else 48), "limit=%d" % (24 if q else 100), S], "shards": 6},
